@@ -39,27 +39,27 @@ UNITS = [
       cbmc_flags=["--unwindset", "p_hash_table_free.0:2,p_hash_table_free.1:102", "--unwinding-assertions", "--object-bits", "10"], timeout=300, bound="bucket loop of p_hash_table_free unwound to the fixed table size 101, chain loop once (the table is empty): complete, unwinding assertions on"),
     U("time_profiler_new", "h_profiler", "misc2.c", ["ptimeprofiler.c"], defines=["UNIT_PROFILER"], canaries=2, functions=["p_time_profiler_new", "p_time_profiler_free", "p_time_profiler_reset"], cbmc_flags=[]),
     U("spinlock_new", "h_spin_new", "misc2.c", ["pspinlock-c11.c"], defines=["UNIT_SPIN_NEW"], canaries=2, functions=["p_spinlock_new", "p_spinlock_free"], cbmc_flags=[]),
-    U("hash_ctx_md5", "h_hash_ctx", "misc2.c", ["pcryptohash-md5.c"], defines=["UNIT_HASH_CTX", 'ALG_SRC="pcryptohash-md5.c"', "ALG_TYPE=PHashMD5", "ALG_NEW=p_crypto_hash_md5_new", "ALG_FREE=p_crypto_hash_md5_free"], canaries=2, functions=["p_crypto_hash_md5_new", "p_crypto_hash_md5_free"], cbmc_flags=["--unwind", "100", "--unwinding-assertions"],
+    U("hash_ctx_md5", "h_hash_ctx", "misc2.c", ["pcryptohash-md5.c"], defines=["UNIT_HASH_CTX", 'ALG_SRC="pcryptohash-md5.c"', "ALG_TYPE=PHashMD5", "ALG_NEW=p_crypto_hash_md5_new", "ALG_FREE=p_crypto_hash_md5_free", "ALG_RESET=p_crypto_hash_md5_reset"], canaries=2, functions=["p_crypto_hash_md5_new", "p_crypto_hash_md5_free"], cbmc_flags=["--unwind", "100", "--unwinding-assertions"],
       bound="fixed-size initialisation loops fully unwound: complete, unwinding assertions on"),
-    U("hash_ctx_sha1", "h_hash_ctx", "misc2.c", ["pcryptohash-sha1.c"], defines=["UNIT_HASH_CTX", 'ALG_SRC="pcryptohash-sha1.c"', "ALG_TYPE=PHashSHA1", "ALG_NEW=p_crypto_hash_sha1_new", "ALG_FREE=p_crypto_hash_sha1_free"], canaries=2, functions=["p_crypto_hash_sha1_new", "p_crypto_hash_sha1_free"], cbmc_flags=["--unwind", "100", "--unwinding-assertions"],
+    U("hash_ctx_sha1", "h_hash_ctx", "misc2.c", ["pcryptohash-sha1.c"], defines=["UNIT_HASH_CTX", 'ALG_SRC="pcryptohash-sha1.c"', "ALG_TYPE=PHashSHA1", "ALG_NEW=p_crypto_hash_sha1_new", "ALG_FREE=p_crypto_hash_sha1_free", "ALG_RESET=p_crypto_hash_sha1_reset"], canaries=2, functions=["p_crypto_hash_sha1_new", "p_crypto_hash_sha1_free"], cbmc_flags=["--unwind", "100", "--unwinding-assertions"],
       bound="fixed-size initialisation loops fully unwound: complete, unwinding assertions on"),
-    U("hash_ctx_sha2_256", "h_hash_ctx", "misc2.c", ["pcryptohash-sha2-256.c"], defines=["UNIT_HASH_CTX", 'ALG_SRC="pcryptohash-sha2-256.c"', "ALG_TYPE=PHashSHA2_256", "ALG_NEW=p_crypto_hash_sha2_256_new", "ALG_FREE=p_crypto_hash_sha2_256_free"], canaries=2, functions=["p_crypto_hash_sha2_256_new", "p_crypto_hash_sha2_256_free", "pp_crypto_hash_sha2_256_new_internal"], cbmc_flags=["--unwind", "100", "--unwinding-assertions"],
+    U("hash_ctx_sha2_256", "h_hash_ctx", "misc2.c", ["pcryptohash-sha2-256.c"], defines=["UNIT_HASH_CTX", 'ALG_SRC="pcryptohash-sha2-256.c"', "ALG_TYPE=PHashSHA2_256", "ALG_NEW=p_crypto_hash_sha2_256_new", "ALG_FREE=p_crypto_hash_sha2_256_free", "ALG_RESET=p_crypto_hash_sha2_256_reset"], canaries=2, functions=["p_crypto_hash_sha2_256_new", "p_crypto_hash_sha2_256_free", "pp_crypto_hash_sha2_256_new_internal"], cbmc_flags=["--unwind", "100", "--unwinding-assertions"],
       bound="fixed-size initialisation loops fully unwound: complete, unwinding assertions on"),
-    U("hash_ctx_sha2_224", "h_hash_ctx", "misc2.c", ["pcryptohash-sha2-256.c"], defines=["UNIT_HASH_CTX", 'ALG_SRC="pcryptohash-sha2-256.c"', "ALG_TYPE=PHashSHA2_256", "ALG_NEW=p_crypto_hash_sha2_224_new", "ALG_FREE=p_crypto_hash_sha2_256_free"], canaries=2, functions=["p_crypto_hash_sha2_224_new", "p_crypto_hash_sha2_256_free", "pp_crypto_hash_sha2_256_new_internal"], cbmc_flags=["--unwind", "100", "--unwinding-assertions"],
+    U("hash_ctx_sha2_224", "h_hash_ctx", "misc2.c", ["pcryptohash-sha2-256.c"], defines=["UNIT_HASH_CTX", 'ALG_SRC="pcryptohash-sha2-256.c"', "ALG_TYPE=PHashSHA2_256", "ALG_NEW=p_crypto_hash_sha2_224_new", "ALG_FREE=p_crypto_hash_sha2_256_free", "ALG_RESET=p_crypto_hash_sha2_256_reset"], canaries=2, functions=["p_crypto_hash_sha2_224_new", "p_crypto_hash_sha2_256_free", "pp_crypto_hash_sha2_256_new_internal"], cbmc_flags=["--unwind", "100", "--unwinding-assertions"],
       bound="fixed-size initialisation loops fully unwound: complete, unwinding assertions on"),
-    U("hash_ctx_sha2_512", "h_hash_ctx", "misc2.c", ["pcryptohash-sha2-512.c"], defines=["UNIT_HASH_CTX", 'ALG_SRC="pcryptohash-sha2-512.c"', "ALG_TYPE=PHashSHA2_512", "ALG_NEW=p_crypto_hash_sha2_512_new", "ALG_FREE=p_crypto_hash_sha2_512_free"], canaries=2, functions=["p_crypto_hash_sha2_512_new", "p_crypto_hash_sha2_512_free", "pp_crypto_hash_sha2_512_new_internal"], cbmc_flags=["--unwind", "100", "--unwinding-assertions"],
+    U("hash_ctx_sha2_512", "h_hash_ctx", "misc2.c", ["pcryptohash-sha2-512.c"], defines=["UNIT_HASH_CTX", 'ALG_SRC="pcryptohash-sha2-512.c"', "ALG_TYPE=PHashSHA2_512", "ALG_NEW=p_crypto_hash_sha2_512_new", "ALG_FREE=p_crypto_hash_sha2_512_free", "ALG_RESET=p_crypto_hash_sha2_512_reset"], canaries=2, functions=["p_crypto_hash_sha2_512_new", "p_crypto_hash_sha2_512_free", "pp_crypto_hash_sha2_512_new_internal"], cbmc_flags=["--unwind", "100", "--unwinding-assertions"],
       bound="fixed-size initialisation loops fully unwound: complete, unwinding assertions on"),
-    U("hash_ctx_sha2_384", "h_hash_ctx", "misc2.c", ["pcryptohash-sha2-512.c"], defines=["UNIT_HASH_CTX", 'ALG_SRC="pcryptohash-sha2-512.c"', "ALG_TYPE=PHashSHA2_512", "ALG_NEW=p_crypto_hash_sha2_384_new", "ALG_FREE=p_crypto_hash_sha2_512_free"], canaries=2, functions=["p_crypto_hash_sha2_384_new", "p_crypto_hash_sha2_512_free", "pp_crypto_hash_sha2_512_new_internal"], cbmc_flags=["--unwind", "100", "--unwinding-assertions"],
+    U("hash_ctx_sha2_384", "h_hash_ctx", "misc2.c", ["pcryptohash-sha2-512.c"], defines=["UNIT_HASH_CTX", 'ALG_SRC="pcryptohash-sha2-512.c"', "ALG_TYPE=PHashSHA2_512", "ALG_NEW=p_crypto_hash_sha2_384_new", "ALG_FREE=p_crypto_hash_sha2_512_free", "ALG_RESET=p_crypto_hash_sha2_512_reset"], canaries=2, functions=["p_crypto_hash_sha2_384_new", "p_crypto_hash_sha2_512_free", "pp_crypto_hash_sha2_512_new_internal"], cbmc_flags=["--unwind", "100", "--unwinding-assertions"],
       bound="fixed-size initialisation loops fully unwound: complete, unwinding assertions on"),
-    U("hash_ctx_sha3_224", "h_hash_ctx", "misc2.c", ["pcryptohash-sha3.c"], defines=["UNIT_HASH_CTX", 'ALG_SRC="pcryptohash-sha3.c"', "ALG_TYPE=PHashSHA3", "ALG_NEW=p_crypto_hash_sha3_224_new", "ALG_FREE=p_crypto_hash_sha3_free"], canaries=2, functions=["p_crypto_hash_sha3_224_new", "p_crypto_hash_sha3_free", "pp_crypto_hash_sha3_new_internal"], cbmc_flags=["--unwind", "100", "--unwinding-assertions"],
+    U("hash_ctx_sha3_224", "h_hash_ctx", "misc2.c", ["pcryptohash-sha3.c"], defines=["UNIT_HASH_CTX", 'ALG_SRC="pcryptohash-sha3.c"', "ALG_TYPE=PHashSHA3", "ALG_NEW=p_crypto_hash_sha3_224_new", "ALG_FREE=p_crypto_hash_sha3_free", "ALG_RESET=p_crypto_hash_sha3_reset"], canaries=2, functions=["p_crypto_hash_sha3_224_new", "p_crypto_hash_sha3_free", "pp_crypto_hash_sha3_new_internal"], cbmc_flags=["--unwind", "100", "--unwinding-assertions"],
       bound="fixed-size initialisation loops fully unwound: complete, unwinding assertions on"),
-    U("hash_ctx_sha3_256", "h_hash_ctx", "misc2.c", ["pcryptohash-sha3.c"], defines=["UNIT_HASH_CTX", 'ALG_SRC="pcryptohash-sha3.c"', "ALG_TYPE=PHashSHA3", "ALG_NEW=p_crypto_hash_sha3_256_new", "ALG_FREE=p_crypto_hash_sha3_free"], canaries=2, functions=["p_crypto_hash_sha3_256_new", "p_crypto_hash_sha3_free", "pp_crypto_hash_sha3_new_internal"], cbmc_flags=["--unwind", "100", "--unwinding-assertions"],
+    U("hash_ctx_sha3_256", "h_hash_ctx", "misc2.c", ["pcryptohash-sha3.c"], defines=["UNIT_HASH_CTX", 'ALG_SRC="pcryptohash-sha3.c"', "ALG_TYPE=PHashSHA3", "ALG_NEW=p_crypto_hash_sha3_256_new", "ALG_FREE=p_crypto_hash_sha3_free", "ALG_RESET=p_crypto_hash_sha3_reset"], canaries=2, functions=["p_crypto_hash_sha3_256_new", "p_crypto_hash_sha3_free", "pp_crypto_hash_sha3_new_internal"], cbmc_flags=["--unwind", "100", "--unwinding-assertions"],
       bound="fixed-size initialisation loops fully unwound: complete, unwinding assertions on"),
-    U("hash_ctx_sha3_384", "h_hash_ctx", "misc2.c", ["pcryptohash-sha3.c"], defines=["UNIT_HASH_CTX", 'ALG_SRC="pcryptohash-sha3.c"', "ALG_TYPE=PHashSHA3", "ALG_NEW=p_crypto_hash_sha3_384_new", "ALG_FREE=p_crypto_hash_sha3_free"], canaries=2, functions=["p_crypto_hash_sha3_384_new", "p_crypto_hash_sha3_free", "pp_crypto_hash_sha3_new_internal"], cbmc_flags=["--unwind", "100", "--unwinding-assertions"],
+    U("hash_ctx_sha3_384", "h_hash_ctx", "misc2.c", ["pcryptohash-sha3.c"], defines=["UNIT_HASH_CTX", 'ALG_SRC="pcryptohash-sha3.c"', "ALG_TYPE=PHashSHA3", "ALG_NEW=p_crypto_hash_sha3_384_new", "ALG_FREE=p_crypto_hash_sha3_free", "ALG_RESET=p_crypto_hash_sha3_reset"], canaries=2, functions=["p_crypto_hash_sha3_384_new", "p_crypto_hash_sha3_free", "pp_crypto_hash_sha3_new_internal"], cbmc_flags=["--unwind", "100", "--unwinding-assertions"],
       bound="fixed-size initialisation loops fully unwound: complete, unwinding assertions on"),
-    U("hash_ctx_sha3_512", "h_hash_ctx", "misc2.c", ["pcryptohash-sha3.c"], defines=["UNIT_HASH_CTX", 'ALG_SRC="pcryptohash-sha3.c"', "ALG_TYPE=PHashSHA3", "ALG_NEW=p_crypto_hash_sha3_512_new", "ALG_FREE=p_crypto_hash_sha3_free"], canaries=2, functions=["p_crypto_hash_sha3_512_new", "p_crypto_hash_sha3_free", "pp_crypto_hash_sha3_new_internal"], cbmc_flags=["--unwind", "100", "--unwinding-assertions"],
+    U("hash_ctx_sha3_512", "h_hash_ctx", "misc2.c", ["pcryptohash-sha3.c"], defines=["UNIT_HASH_CTX", 'ALG_SRC="pcryptohash-sha3.c"', "ALG_TYPE=PHashSHA3", "ALG_NEW=p_crypto_hash_sha3_512_new", "ALG_FREE=p_crypto_hash_sha3_free", "ALG_RESET=p_crypto_hash_sha3_reset"], canaries=2, functions=["p_crypto_hash_sha3_512_new", "p_crypto_hash_sha3_free", "pp_crypto_hash_sha3_new_internal"], cbmc_flags=["--unwind", "100", "--unwinding-assertions"],
       bound="fixed-size initialisation loops fully unwound: complete, unwinding assertions on"),
-    U("hash_ctx_gost3411", "h_hash_ctx", "misc2.c", ["pcryptohash-gost3411.c"], defines=["UNIT_HASH_CTX", 'ALG_SRC="pcryptohash-gost3411.c"', "ALG_TYPE=PHashGOST3411", "ALG_NEW=p_crypto_hash_gost3411_new", "ALG_FREE=p_crypto_hash_gost3411_free"], canaries=2, functions=["p_crypto_hash_gost3411_new", "p_crypto_hash_gost3411_free"], cbmc_flags=["--unwind", "100", "--unwinding-assertions"],
+    U("hash_ctx_gost3411", "h_hash_ctx", "misc2.c", ["pcryptohash-gost3411.c"], defines=["UNIT_HASH_CTX", 'ALG_SRC="pcryptohash-gost3411.c"', "ALG_TYPE=PHashGOST3411", "ALG_NEW=p_crypto_hash_gost3411_new", "ALG_FREE=p_crypto_hash_gost3411_free", "ALG_RESET=p_crypto_hash_gost3411_reset"], canaries=2, functions=["p_crypto_hash_gost3411_new", "p_crypto_hash_gost3411_free"], cbmc_flags=["--unwind", "100", "--unwinding-assertions"],
       bound="fixed-size initialisation loops fully unwound: complete, unwinding assertions on"),
     U("library_loader", "h_loader", "../C20/loader.c", ["plibraryloader-posix.c"], canaries=2, timeout=300, functions=["p_library_loader_new", "p_library_loader_free", "p_library_loader_get_last_error"], cbmc_flags=[]),
 ] + pick("C01", ["mutex_new_free"]) + pick("C02", ["posix_new_free"]) + pick("C03", ["cond_new_free"]) + pick("C05", ["current", "get_tls_key", "local_new_free", "create_full", "create_internal", "set_name_internal"]) + \
